@@ -370,6 +370,51 @@ def r5_groups(facts, rep):
         rep.ob("C06-R5", "value:paren-group", not bad and n_some >= 1 and n_none >= 2, "; ".join(sorted(set(bad))[:3]) if bad else
                "`(`: blanks skipped, checkpoint, `(` consumed, operation, `)`, close_at(checkpoint, OPERATION) on the %d successful path(s); None otherwise (%d)" % (n_some, n_none),
                body.site(), sample={"some_paths": n_some, "none_paths": n_none})
+    # every kind of value: the blanks in front of it stay outside its node - whatever the first token is, the pending
+    # blanks are skipped before any checkpoint is taken and before the first token is consumed (a checkpoint taken earlier
+    # puts the blank inside FN_NAME / SENTENCE / NUMBER..., and ` floor` is not a function)
+    if body is not None:
+        adt = facts.adt("syntax::parser::Syntax")
+        n_kinds = 0
+        for var in adt["variants"]:
+            kd = var["name"]
+
+            class Prefix(GroupDomain):
+                CONSUMING = ("bump", "bump_node", "bump_until", "eat", "operation", "unit", "value", "call_arguments")
+
+                def __init__(self, facts_, k_):
+                    super().__init__(facts_, k_)
+                    self.prefixes = []
+
+                def _oracle(self, dom, it, name, args, vals, store):
+                    m = name[len(P):] if name.startswith(P) else (name[len(G):] if name.startswith(G) else None)
+                    if m in self.CONSUMING:
+                        self.prefixes.append(tuple(self.log(store)) + ((m,),))
+                        return []  # the rest of the path is not needed
+                    return super()._oracle(dom, it, name, args, vals, store)
+            domk = Prefix(facts, kd)
+            domk.oracle = domk._oracle
+            itk = core.Interp(facts, domk, budget=60000)
+            try:
+                itk.run(body, [Sym("parser"), Sym("skip_in")], {})
+            except core.Undecided as e:
+                rep.ob("C06-R5", "value:%s:blanks-first" % kd, False, "undecided: %s" % e, body.site())
+                continue
+            if not domk.prefixes:
+                continue  # not the start of a value
+            n_kinds += 1
+            badk = []
+            for pre in domk.prefixes:
+                names_ = [e[0] for e in pre]
+                sk = [i_ for i_, e in enumerate(pre) if e[0] == "skip" and len(e) > 1 and e[1] == Sym("skip_in")]
+                cps_ = [i_ for i_, e in enumerate(pre) if e[0] == "checkpoint"]
+                if not sk:
+                    badk.append("the first token is consumed without the pending blanks having been skipped (effects: %s)" % names_)
+                elif cps_ and cps_[0] < sk[0]:
+                    badk.append("a checkpoint is taken before the pending blanks are skipped (effects: %s): the blanks end up inside the node" % names_)
+            rep.ob("C06-R5", "value:%s:blanks-first" % kd, not badk, "; ".join(sorted(set(badk))[:2]) if badk else
+                   "a value that starts with %s: blanks skipped, then checkpoint(s), then the token (%d path prefix(es))" % (kd, len(domk.prefixes)), body.site())
+        rep.floor("C06-R5", "token kinds that start a value", n_kinds, 4)
     q = None
     for b in facts.lib_bodies():
         if b.path.startswith("<query::Query<") and b.path.endswith("as std::iter::Iterator>::next"):
